@@ -31,11 +31,26 @@ MODES_THOROUGH = ['jit', 'nojit', 'bounds']
 LEVEL = 'proof'
 TIMEOUT_S = 30.0
 
-RULE = ('table (HDF5, ~10 ms/case, jit mode only in the quick tier): every old table of <= 3 rows over 3 keys x 2 '
-        'j_valid_from values in every physical order x every snapshot that is an arrangement of a subset of 3 keys '
-        '(one only-new key), each with 3 difference patterns (none / all / seeded per-key choice among '
-        'same, numeric-only, string-only, both), 1-2 payload columns (numeric + indexed string), key dtype '
-        'int32/int64/S1 rotated; plus seeded samples of 4-6 row tables. pipe (kernels on sorted arrays, both modes): '
+RULE = ('table (HDF5, ~10 ms/case; every case in one of jit / nojit chosen by hash, tagged cases in all modes): '
+        'A. every old table of <= 3 rows over 3 keys x 2 j_valid_from values in every physical order x every snapshot that '
+        'is an arrangement of a subset of 3 keys (one only-new key), each with 3 difference patterns (none / all / seeded '
+        'per-key choice among same, numeric-only, string-only, both), 1-2 payload columns, key dtype int32/int64/S1 rotated; '
+        'B. every sequence of <= 3 key blocks (1-2 old versions x snapshot record absent / unchanged / changed, or only-new '
+        'key) x EVERY segment size cs from 1 to the number of result rows (cs = ops.DEFAULT_CHUNKSIZE and every chunksize '
+        'default of operations.py during the call); C. fixed-string keys: every pair of the 49 distinct S2 cells over the '
+        'bytes {NUL, tab, blank, A, a, 0x80, 0xff} with the snapshot physically descending (every third pair also '
+        'ascending), seeded S3/S4/S8 keys sharing a stem; D. numeric keys: every pair of the extreme values of int8, uint8, '
+        'int32, int64, uint64, float32, float64 (thorough: + int16, uint16, uint32) in both snapshot orders; E. payload '
+        'domains: int8 / int64 at +-2^62.. / uint64 / float32 at 2^24 / float64 at 2^53 / fixed-string S2 payloads, strings '
+        'with 2-3-byte characters and cells >= 256 bytes that differ only at the end, differences confined to one column; '
+        'F. seeded tables of 8-48 rows, up to 24 keys and 4 versions with cs in 1..16; G. old_src is new_src; H. seeded 4-6 '
+        'row tables. Over all groups rotate: cs in {1,2,3,4,5,7,2^20}, field chunk size in {1,2,3,5,7,8,64,4096,2^20}, the '
+        'map from integer j_valid_from to float timestamps (identity / 2^-10 s apart / negative halves / multiples of 2^60), '
+        'argument form (DataFrames / raw h5py groups), a second journalling of the same tables; every case checks that both '
+        'source tables are unchanged afterwards. I. change-directed: every new small integer literal K of the tree under '
+        'test is planted as number of rows of the old table / the snapshot / the result, run of versions, segment size, '
+        'field chunk size (K-1, K, K+1, 2K-1, 2K, 2K+1, 3K, up to 520 rows), key width, string-cell length and number of '
+        'compared fields. pipe (kernels on sorted arrays, both modes): '
         'every non-decreasing old key list of <= 5 rows over 3 keys x every strictly increasing snapshot over 4 keys '
         'x every per-matched-key difference pattern in {same, num, str, both}. indices: every old list of <= 4 '
         'entries over 3 symbols x every new list of <= 3 entries over 4 symbols (also unsorted: model = code). '
@@ -45,15 +60,22 @@ TRUSTED = ['numpy argsort(kind=stable), fancy indexing and Session.dataset_sort_
            'Gallina (Model/Journal.v: argsort, take, dataset_sort_index, apply_index_str) and tied to the real '
            'functions only by this correspondence run',
            'h5py/ExeTera field storage round-trip (write of the destination arrays, read-back of .data/.indices/.values)',
-           'keys, j_valid_from values and numeric payloads are exactly representable integers (no NaN, no overflow)']
+           'numeric keys, j_valid_from values and numeric payloads are exactly representable in their dtype (no NaN, no '
+           'overflow); the harness maps the model\'s integer j_valid_from / payload values into the dtype by strictly '
+           'increasing (resp. injective) maps (_vf, _pmap in harness/props/C17.py)',
+           'the order numpy and numba give to S<w> cells is the bytewise unsigned order of the NUL-padded cells (this is the '
+           'order the model uses: Model/JournalKeys.key_enc, proved an order isomorphism; tied to the real code by the '
+           'fixed-string-key cases of this run)']
 ASSUMPTIONS = ['snapshot keys are unique', 'old and new column of a field have the same kind and dtype',
                'schema lists the payload fields; primary key / j_valid_from / j_valid_to are not written to the result '
-               '(journal_table skips them)']
+               '(journal_table skips them)',
+               'payload kinds: numeric, fixed-string (compared and copied like numeric data) and indexed-string columns']
 TECHNIQUE = ('Coq proof (statement-level Gallina model of journal_table and its six kernels = per-key history spec) + '
              'exhaustive small-scope differential correspondence against the real journal_table on HDF5 groups')
 LEVEL_TEXT = ('Theorems in coq/Props/C17.v prove, for all tables and all sizes, that the Gallina model of '
               'journal_table (sort indices, ordered_generate_journalling_indices, compare_*_rows_for_journalling, '
-              'merge_*journalled_entries*) returns exactly the columns of the per-key history specification; the model '
+              'merge_*journalled_entries*) returns exactly the columns of the per-key history specification, for integer and '
+              'for fixed-width byte-string keys (order isomorphism key_enc) and whatever the chunk-size parameters; the model '
               'is tied to the code by running the extracted model, the extracted spec and the real code on the same '
               'generated cases.')
 LEVEL_NOTE = ('Trusted: Coq kernel, extraction, harness; numpy stable argsort / fancy indexing and the ExeTera field '
@@ -1156,6 +1178,12 @@ def shrink(case):
                 c = dict(case); c[key] = case[key][:i] + case[key][i + 1:]; yield c
         return
     no, nn = len(case['okeys']), len(case['nkeys'])
+    # configuration dimensions first: a failure that does not need them is reported without them
+    for key in ('twice', 'form', 'scs', 'vft', 'allmodes', 'cs'):
+        if key in case and not (key == 'form' and case[key] == 'alias'):
+            c = dict(case); del c[key]; yield c
+    if case.get('cs', 1) > 1:
+        c = dict(case); c['cs'] = case['cs'] - 1; yield c
     for i in range(no):
         c = dict(case)
         c['okeys'] = case['okeys'][:i] + case['okeys'][i + 1:]
